@@ -946,6 +946,12 @@ impl Interpreter {
         self.main_module_path = module_path.clone();
         self.current_module_path = module_path.clone();
 
+        // A source the host supplied earlier under the entry's own path is superseded by the
+        // program it starts now; left queued, it would run once more as a dependency
+        if let Some(path) = &module_path {
+            self.pending_module_sources.remove(path);
+        }
+
         // Parse the source
         let mut parser = Parser::new(source, &mut self.string_dict);
         let program = parser.parse_program()?;
@@ -1470,6 +1476,12 @@ impl Interpreter {
         // This is the entry point: its path is the main module path
         self.main_module_path = module_path.clone();
         self.current_module_path = module_path.clone();
+
+        // A source the host supplied earlier under the entry's own path is superseded by the
+        // program it starts now; left queued, it would run once more as a dependency
+        if let Some(path) = &module_path {
+            self.pending_module_sources.remove(path);
+        }
 
         // Parse the source
         let mut parser = Parser::new(source, &mut self.string_dict);
